@@ -2,14 +2,17 @@
    This file holds ONLY the property theorems (each closed by `exact`) and their non-vacuity
    examples. Model: Ckpt/Bincode.v (bincode 2.0.1 `standard().with_limit::<16 MiB>()`),
    Ckpt/Store.v (src/checkpoint.rs). Conventions:
-     H        SHA-256 as an ARBITRARY function bytes -> digest bytes (nothing is assumed of it)
+     H        SHA-256 as an ARBITRARY function bytes -> digest bytes (nothing is assumed of it);
+              section 2b instantiates it with the model of SHA-256 (Ckpt/Sha256.v): md_stream = the
+              streaming hasher compute_checksum drives (sha2's new / update / finalize), md_spec =
+              FIPS 180-4 one shot, both over the FIPS compression function
      avail    what the allocator can serve; requests beyond it are the outcome Abort
      readdir  the OS directory listing: ANY function returning a permutation of the names present
      files_of pid d   the names in d that checkpoint_file_timestamp accepts for pipeline pid *)
 From Coq Require Import List ZArith Bool Permutation String.
-From IB Require Import Util.J Ckpt.Bincode Ckpt.Store.
+From IB Require Import Util.J Ckpt.Bincode Ckpt.Store Ckpt.Sha256.
 From IB Require Import Proofs.CkptBincode Proofs.CkptStore Proofs.CkptRetention Proofs.CkptMain
-     Proofs.CkptRecent.
+     Proofs.CkptRecent Proofs.CkptSha256.
 Import ListNotations.
 Open Scope Z_scope.
 
@@ -90,6 +93,83 @@ Theorem c12_checksum_alteration_rejected :
     wf_value s2 -> c' <> compute_checksum H (meta_str s) ->
     exists e, load_bytes H avail (encode s2 ++ junk) = Err e.
 Proof. exact checksum_alteration_rejected. Qed.
+
+(* ------------------------------------------------------------------ 2b. compute_checksum *)
+(* Ckpt/Sha256.v. The construction (padding, blocks, streaming buffer) is generic in the
+   compression function: the statements below hold for EVERY compress / initial value / output
+   function - in particular for the FIPS 180-4 compression function over both word
+   representations of the model: ops_z (words as Z; sha256_z, sha256_spec_z) and ops_int (machine
+   integers; sha256, sha256_spec: what the correspondence run evaluates). *)
+
+(* compute_checksum (Sha256::new, ONE update with the whole slice, finalize) computes the one-shot
+   FIPS 180-4 function of the data, for data of every length *)
+Theorem c12_sha_stream_spec :
+  forall (hst : Type) (compress : hst -> bytes -> hst) (h0 : hst) (digest_of : hst -> bytes) data,
+    md_stream compress h0 digest_of data = md_spec compress h0 digest_of data.
+Proof. exact sha_stream_spec. Qed.
+
+(* ... and so does every other way of cutting the data into update calls (empty pieces, pieces
+   across block boundaries): the digest depends on the concatenation only, and on ALL of it *)
+Theorem c12_sha_stream_chunks :
+  forall (hst : Type) (compress : hst -> bytes -> hst) (h0 : hst) (digest_of : hst -> bytes) chunks,
+    md_finalize compress digest_of (fold_left (md_update compress) chunks (md_new h0))
+    = md_spec compress h0 digest_of (List.concat chunks).
+Proof. exact sha_stream_chunks. Qed.
+
+(* the padded message: whole blocks, 9 .. 72 bytes longer, the bit length in the last 8 bytes *)
+Theorem c12_sha_pad_blocks :
+  forall data,
+    let m := data ++ sha_pad (Z.of_nat (List.length data)) in
+    Z.of_nat (List.length m) mod 64 = 0
+    /\ (List.length data + 9 <= List.length m < List.length data + 73)%nat
+    /\ skipn (List.length m - 8) m = be64 (8 * Z.of_nat (List.length data)).
+Proof. exact sha_pad_blocks. Qed.
+
+(* the FIPS instance over Z: a digest is 32 bytes; the checksum string is 64 lower-case hex digits *)
+Theorem c12_sha_digest_shape :
+  forall data, List.length (sha256_spec_z data) = 32%nat /\ Forall is_byte (sha256_spec_z data).
+Proof. exact sha256_z_shape. Qed.
+
+Theorem c12_checksum_shape :
+  forall data,
+    List.length (compute_checksum sha256_z data) = 64%nat
+    /\ Forall is_lower_hex (compute_checksum sha256_z data).
+Proof. exact checksum_shape_z. Qed.
+
+(* c12_tamper_detected with H := the streaming hash over any compression function whose output
+   function emits 32 bytes (digest_ok; holds for the FIPS instances): what is accepted with the
+   old checksum but other protected fields exhibits two different strings with the same ONE-SHOT
+   digest - a collision of SHA-256 itself *)
+Theorem c12_tamper_detected_sha256 :
+  forall (hst : Type) (compress : hst -> bytes -> hst) (h0 : hst) (digest_of : hst -> bytes),
+    digest_ok digest_of ->
+  forall avail, ckpt_limit <= avail ->
+  forall s b s',
+    nums_nonneg s -> Forall is_byte b ->
+    checksum s = compute_checksum (md_stream compress h0 digest_of) (meta_str s) ->
+    load_bytes (md_stream compress h0 digest_of) avail b = Ok s' -> checksum s' = checksum s ->
+    protected s' <> protected s ->
+    meta_str s' <> meta_str s
+    /\ md_spec compress h0 digest_of (meta_str s') = md_spec compress h0 digest_of (meta_str s).
+Proof. exact tamper_detected_sha256. Qed.
+
+(* every protected field, ids of every length: the file of a state s2 that differs from the saved
+   s in the id, the index, the timestamp or the partition count and keeps s's checksum is rejected
+   with the checksum error (LimitExceeded when s2 is beyond the decode limit) - or the hash has a
+   collision *)
+Theorem c12_field_tamper_sha256 :
+  forall (hst : Type) (compress : hst -> bytes -> hst) (h0 : hst) (digest_of : hst -> bytes),
+    digest_ok digest_of ->
+  forall avail, ckpt_limit <= avail ->
+  forall s s2 junk,
+    nums_nonneg s -> wf_value s2 ->
+    checksum s = compute_checksum (md_stream compress h0 digest_of) (meta_str s) ->
+    checksum s2 = checksum s -> protected s2 <> protected s ->
+    load_bytes (md_stream compress h0 digest_of) avail (encode s2 ++ junk) = Err LChecksum
+    \/ load_bytes (md_stream compress h0 digest_of) avail (encode s2 ++ junk) = Err (LDecode ELimit)
+    \/ (meta_str s2 <> meta_str s
+        /\ md_spec compress h0 digest_of (meta_str s2) = md_spec compress h0 digest_of (meta_str s)).
+Proof. exact field_tamper_sha256. Qed.
 
 (* ------------------------------------------------------------------ 3. malformed bytes *)
 
@@ -341,3 +421,76 @@ Example ex_latest_clear :
   /\ dir_names (clear rev_listing (string_bytes "a") ex_dir)
      = [nm "checkpoint_a_b_200.bin"; nm "checkpoint_a_x.bin"; nm "checkpoint_a_7.BIN"; nm "notes.tmp"].
 Proof. repeat split; vm_compute; reflexivity. Qed.
+
+(* c12_sha_stream_spec / c12_sha_digest_shape / c12_checksum_shape / c12_sha_pad_blocks: both word
+   instances of the model reproduce the FIPS 180-4 / NIST test vectors "abc", "" and the 56-byte
+   message (two blocks after padding), in the streaming and in the one-shot formulation *)
+Definition ex_abc_hex : bytes :=
+  string_bytes "ba7816bf8f01cfea414140de5dae2223b00361a396177a9cb410ff61f20015ad".
+Definition ex_nist56 : bytes := string_bytes "abcdbcdecdefdefgefghfghighijhijkijkljklmklmnlmnomnopnopq".
+Example ex_sha_vectors :
+  compute_checksum sha256_z (string_bytes "abc") = ex_abc_hex
+  /\ hex (sha256_spec_z (string_bytes "abc")) = ex_abc_hex
+  /\ compute_checksum sha256 (string_bytes "abc") = ex_abc_hex
+  /\ hex (sha256_spec (string_bytes "abc")) = ex_abc_hex
+  /\ compute_checksum sha256_z []
+     = string_bytes "e3b0c44298fc1c149afbf4c8996fb92427ae41e4649b934ca495991b7852b855"
+  /\ compute_checksum sha256 []
+     = string_bytes "e3b0c44298fc1c149afbf4c8996fb92427ae41e4649b934ca495991b7852b855"
+  /\ compute_checksum sha256_z ex_nist56
+     = string_bytes "248d6a61d20638b8e5c026930c3e6039a33ce45964ff2167f6ecedd419db06c1"
+  /\ compute_checksum sha256 ex_nist56
+     = string_bytes "248d6a61d20638b8e5c026930c3e6039a33ce45964ff2167f6ecedd419db06c1"
+  /\ List.length (ex_nist56 ++ sha_pad 56) = 128%nat
+  /\ digest_ok (fips_digest ops_z).
+Proof. repeat split; try (vm_compute; reflexivity); apply fips_digest_z_ok. Qed.
+
+(* c12_sha_stream_chunks: a 150-byte message fed as 0 + 1 + 63 + 64 + 22 bytes, as whole blocks plus
+   the remainder, and at once, gives the same digest; WITHOUT the remainder (what feeding only
+   `chunks_exact(64)` does) it does not *)
+Definition ex_msg : bytes := map (fun i => Z.of_nat i mod 251) (seq 0 150).
+Definition ex_feed (pieces : list bytes) : bytes :=
+  md_finalize (fips_compress ops_z) (fips_digest ops_z)
+              (fold_left (md_update (fips_compress ops_z)) pieces (md_new (fips_h0 ops_z))).
+Example ex_sha_chunks :
+  let pieces := [[]; firstn 1 ex_msg; firstn 63 (skipn 1 ex_msg); firstn 64 (skipn 64 ex_msg); skipn 128 ex_msg] in
+  List.concat pieces = ex_msg
+  /\ ex_feed pieces = sha256_z ex_msg
+  /\ ex_feed [firstn 64 ex_msg; firstn 64 (skipn 64 ex_msg); skipn 128 ex_msg] = sha256_z ex_msg
+  /\ ex_feed [firstn 64 ex_msg; firstn 64 (skipn 64 ex_msg)] <> sha256_z ex_msg
+  /\ sha256 ex_msg = sha256_z ex_msg.
+Proof.
+  cbv zeta. split; [vm_compute; reflexivity|]. split; [vm_compute; reflexivity|].
+  split; [vm_compute; reflexivity|]. split; [|vm_compute; reflexivity].
+  vm_compute. intro E. discriminate.
+Qed.
+
+(* c12_tamper_detected_sha256 / c12_field_tamper_sha256: a 64-character pipeline id (protected
+   string of 70 bytes: index, timestamp and partition count lie in the second SHA-256 block).
+   The saved file loads; with the index, the timestamp, the partition count or one id character
+   changed and the checksum kept it is rejected with the checksum error *)
+Definition ex_long_pid : bytes := List.concat (repeat (string_bytes "0123456789abcdef") 4).
+Definition ex_long (pid : bytes) (cni ts pc : Z) (cks : bytes) : cstate :=
+  mk_cstate pid cni ts pc cks (string_bytes "seq") (mk_cmeta 3 (string_bytes "Map") 50).
+Definition ex_long_saved : cstate :=
+  ex_long ex_long_pid 7 9 4 (compute_checksum sha256_z (meta_str (ex_long ex_long_pid 7 9 4 []))).
+Example ex_long_id_tamper :
+  let c := checksum ex_long_saved in
+  List.length (meta_str ex_long_saved) = 70%nat
+  /\ nums_nonneg ex_long_saved /\ checksum ex_long_saved = compute_checksum sha256_z (meta_str ex_long_saved)
+  /\ load_bytes sha256_z ex_avail (encode ex_long_saved) = Ok ex_long_saved
+  /\ load_bytes sha256_z ex_avail (encode (ex_long ex_long_pid 8 9 4 c)) = Err LChecksum
+  /\ load_bytes sha256_z ex_avail (encode (ex_long ex_long_pid 7 8 4 c)) = Err LChecksum
+  /\ load_bytes sha256_z ex_avail (encode (ex_long ex_long_pid 7 9 5 c)) = Err LChecksum
+  /\ load_bytes sha256_z ex_avail (encode (ex_long (firstn 63 ex_long_pid ++ [103]) 7 9 4 c)) = Err LChecksum
+  /\ wf_value (ex_long ex_long_pid 7 9 5 c)
+  /\ protected (ex_long ex_long_pid 7 9 5 c) <> protected ex_long_saved.
+Proof.
+  cbv zeta. split; [vm_compute; reflexivity|].
+  split; [unfold nums_nonneg; repeat split; vm_compute; intro; discriminate|].
+  split; [vm_compute; reflexivity|]. split; [vm_compute; reflexivity|].
+  split; [vm_compute; reflexivity|]. split; [vm_compute; reflexivity|].
+  split; [vm_compute; reflexivity|]. split; [vm_compute; reflexivity|]. split.
+  - unfold wf_value, wf_str, is_u64, is_byte. repeat split; vm_compute; try reflexivity; intro; discriminate.
+  - vm_compute. intro E. discriminate.
+Qed.
